@@ -233,8 +233,14 @@ func parseMp4File(w io.Writer, r io.Reader, codec string, verbose bool) error {
 		return nil
 	}
 	// Non-fragmented mp4 file with PS in samples
+	if parsedMp4.Moov == nil || parsedMp4.Mdat == nil {
+		return fmt.Errorf("no moov or no mdat box found in mp4 file")
+	}
 	for _, trak := range parsedMp4.Moov.Traks {
-		if trak.Tkhd.TrackID == trackID {
+		if trak.Tkhd != nil && trak.Tkhd.TrackID == trackID {
+			if trak.Mdia == nil || trak.Mdia.Minf == nil || trak.Mdia.Minf.Stbl == nil || trak.Mdia.Minf.Stbl.Stsz == nil {
+				return fmt.Errorf("no stsz box in track %d", trackID)
+			}
 			stbl := trak.Mdia.Minf.Stbl
 			var offset int64
 			switch {
@@ -278,6 +284,10 @@ func parseMp4File(w io.Writer, r io.Reader, codec string, verbose bool) error {
 
 func parseMp4Init(w io.Writer, parsedMp4 *mp4.File, verbose bool) (trackID uint32, codec string, foundPS bool, err error) {
 	for _, trak := range parsedMp4.Moov.Traks {
+		if trak.Tkhd == nil || trak.Mdia == nil || trak.Mdia.Hdlr == nil || trak.Mdia.Minf == nil ||
+			trak.Mdia.Minf.Stbl == nil || trak.Mdia.Minf.Stbl.Stsd == nil {
+			continue // not a complete track
+		}
 		if trak.Mdia.Hdlr.HandlerType == "vide" {
 			stsd := trak.Mdia.Minf.Stbl.Stsd
 			if stsd.AvcX != nil {
